@@ -104,6 +104,52 @@ def check_fn(c, evs, B):
     B.count("member" if c["contains"] else "nonmember")
 
 
+# ------------------------------------------------------------------ in-vitro arm: lists longer than a config line (up to 200 uids)
+
+def make_long(tr):
+    rng = rng_for(PROP, "long" + tr)
+    out = []
+    for i in range(400 if tr == "quick" else 8000):
+        R = rng.choice(UIDS)
+        k = rng.choice([100, 150, 200])
+        pool = [x for x in near(rng, R)]
+        L = [rng.choice(pool) if rng.random() < 0.3 else rng.randrange(0, 2**32 - 1) for _ in range(k)]
+        L = [x for x in L if x != R]
+        contains = rng.random() < 0.5
+        if contains:
+            L.insert(rng.choice([0, len(L), rng.randrange(0, len(L) + 1)]), R)
+        out.append(dict(id=i + 1, R=R, E=rng.choice([u for u in UIDS if u != R]), text=",".join(str(x) for x in L), contains=contains))
+    return out
+
+
+def long_script(c, B, s):
+    from vlib.drive import Script
+    s.fork(c["id"])
+    s.raw("uid %d %d %d" % (c["R"], c["E"], c["R"]))
+    s.raw("vinit 0 %s %s %s" % (Script.elem(b"/bin/x"), Script.vec([b"x"]), Script.vec([b"E=1"])))
+    for j, f in enumerate(FILTERS):
+        s.raw("vfilter %d %s %s" % (c["id"] * 10 + j, Script.elem(f.encode()), Script.elem(c["text"].encode())))
+    s.raw("vcleanup 0")
+    s.endfork()
+
+
+def long_check(c, evs, B):
+    wit = dict(real_uid=c["R"], effective_uid=c["E"], list=c["text"][:300] + "...", list_items=c["text"].count(",") + 1)
+    ch = events_of(evs, "CHILD")
+    if ch and (ch[0]["signal"] or ch[0]["status"]):
+        B.F.violation("C14:long-list:died", "filter call died (signal %d) with a list of %d uids" % (ch[0]["signal"], c["text"].count(",") + 1), wit)
+        return
+    got = {e["id"] % 10: e["ret"] for e in B.res.events if e["ev"] == "V" and e["id"] // 10 == c["id"]}
+    if len(got) != 3:
+        raise Harness("missing vfilter results for long-list case %d" % c["id"])
+    exp = {0: c["contains"], 1: not c["contains"], 2: c["R"] == 0}
+    B.count("long_lists")
+    for j, f in enumerate(FILTERS):
+        if bool(got[j]) != exp[j]:
+            B.F.violation("C14:%s:long-list:%s" % (f, "member" if c["contains"] else "non-member"), "%s with real uid %d and a list of %d uids: %s, expected %s" % (
+                f, c["R"], c["text"].count(",") + 1, "pass" if got[j] else "drop", "pass" if exp[j] else "drop"), wit)
+
+
 def main():
     t0 = time.time()
     tr = tier()
@@ -111,6 +157,13 @@ def main():
     bld = vbuild.build("plain")
     cases = make_cases(tr)
     F, tot = run_cases(PROP, bld, cases, script_fn, check_fn, batch_size=60)
+    import os
+    from vlib.batch import merge_findings
+    from vlib.common import HBIN
+    exe = vbuild.build_vitro(bld, asan=False)
+    F2, tot2 = run_cases(PROP, bld, make_long(tr), long_script, long_check, batch_size=40, exe=exe, preload=[os.path.join(HBIN, "libvrec.so")])
+    merge_findings(F, F2)
+    tot.update(tot2)
     if (tot.get("member", 0) == 0 or tot.get("nonmember", 0) == 0) and F.n_unlisted() == 0:
         raise Harness("did not observe both member and non-member cases: %s" % tot)
     rc = F.report()
@@ -120,6 +173,6 @@ def main():
         samples=[dict(R=c["R"], E=c["E"], L=c["text"][:100]) for c in cases[:4]],
         monitor_events=tot, build=dict(variant="plain", treehash=bld.treehash), violation_keys=sorted(F.viol)),
         time.time() - t0, F.n_unlisted(),
-        ["lists are limited to what one 1023-byte config line carries (about 85 ten-digit uids); longer lists only via compile-time chains, not exercised"])
+        ["through snoopy.ini lists are limited to what one 1023-byte line carries (about 85 ten-digit uids); lists of 100..200 uids are fed to the filters directly (static archive of the same build linked into the harness)"])
     log("[C14] %d pairs %s %.1fs" % (len(cases), tot, time.time() - t0))
     return rc
